@@ -170,11 +170,15 @@ type Universe struct {
 	Tmpl    *objmock.Store
 	Tables  map[int]*TableInfo
 	BlkSum  map[int][]byte // abstract block -> real block sum
-	BIdxSum map[int][]byte // abstract block -> real block-index sum
+	BIdxSum map[int][]byte // abstract block index (block + 100 * key variant of the table) -> real block-index sum
+	KV      map[int]int    // table -> key variant
 	abs     map[string]int // real key (with prefix) -> abstract id
 }
 
-func ingestBlocks(db objects.Store, blocks []int) ([]byte, error) {
+// BIdx names the block index of abstract block b in a table of key variant kv.
+func BIdx(b, kv int) int { return b + 100*kv }
+
+func ingestBlocks(db objects.Store, blocks []int, kv int) ([]byte, error) {
 	buf := bytes.NewBuffer(nil)
 	w := csv.NewWriter(buf)
 	w.Write(Columns)
@@ -192,16 +196,22 @@ func ingestBlocks(db objects.Store, blocks []int) ([]byte, error) {
 	}
 	// composite key declared in another order than the columns (a, k, b): code that takes key cells in column
 	// order is wrong; rows still sort by k first, so the block layout is the one described above
-	return ingest.IngestTable(db, s, io.NopCloser(bytes.NewReader(buf.Bytes())), []string{"k", "\ufeffa"}, logr.Discard())
+	pk := []string{"k", "\ufeffa"}
+	if kv == 1 {
+		// key variant 1: k alone (k is unique, so rows, row order and blocks are those of variant 0; the block
+		// indices, which hash the key cells, are not)
+		pk = []string{"k"}
+	}
+	return ingest.IngestTable(db, s, io.NopCloser(bytes.NewReader(buf.Bytes())), pk, logr.Discard())
 }
 
 // BuildUniverse ingests every table (abstract id -> ascending abstract blocks).
-func BuildUniverse(tables map[int][]int) (*Universe, error) {
+func BuildUniverse(tables map[int][]int, kv map[int]int) (*Universe, error) {
 	if err := checkPrefixes(); err != nil {
 		return nil, err
 	}
 	u := &Universe{Tmpl: objmock.NewStore(), Tables: map[int]*TableInfo{}, BlkSum: map[int][]byte{},
-		BIdxSum: map[int][]byte{}, abs: map[string]int{}}
+		BIdxSum: map[int][]byte{}, KV: kv, abs: map[string]int{}}
 	ids := make([]int, 0, len(tables))
 	for id := range tables {
 		ids = append(ids, id)
@@ -217,7 +227,7 @@ func BuildUniverse(tables map[int][]int) (*Universe, error) {
 				return nil, fmt.Errorf("table %d: short block %d is not last", id, blocks[i])
 			}
 		}
-		sum, err := ingestBlocks(u.Tmpl, blocks)
+		sum, err := ingestBlocks(u.Tmpl, blocks, kv[id])
 		if err != nil {
 			return nil, fmt.Errorf("ingest of table %d: %v", id, err)
 		}
@@ -241,15 +251,16 @@ func BuildUniverse(tables map[int][]int) (*Universe, error) {
 				m      map[int][]byte
 				prefix string
 				sum    []byte
-			}{{u.BlkSum, pBlk, tbl.Blocks[i]}, {u.BIdxSum, pBlkIdx, tbl.BlockIndices[i]}} {
-				if old, ok := e.m[b]; ok && !bytes.Equal(old, e.sum) {
-					return nil, fmt.Errorf("abstract block %d has two different %s objects: sharing is not real", b, e.prefix)
+				id     int
+			}{{u.BlkSum, pBlk, tbl.Blocks[i], b}, {u.BIdxSum, pBlkIdx, tbl.BlockIndices[i], BIdx(b, kv[id])}} {
+				if old, ok := e.m[e.id]; ok && !bytes.Equal(old, e.sum) {
+					return nil, fmt.Errorf("abstract %s %d has two different objects: sharing is not real", e.prefix, e.id)
 				}
-				if other, ok := u.abs[e.prefix+string(e.sum)]; ok && other != b {
-					return nil, fmt.Errorf("abstract blocks %d and %d share one %s object", other, b, e.prefix)
+				if other, ok := u.abs[e.prefix+string(e.sum)]; ok && other != e.id {
+					return nil, fmt.Errorf("abstract %s %d and %d share one object", e.prefix, other, e.id)
 				}
-				e.m[b] = e.sum
-				u.abs[e.prefix+string(e.sum)] = b
+				e.m[e.id] = e.sum
+				u.abs[e.prefix+string(e.sum)] = e.id
 			}
 		}
 	}
